@@ -111,7 +111,8 @@ class Script:
 
     Placement of untimed events (``place`` choice, at every select with a pending untimed lane head):
       * loop busy (``select(0)``): alternatives ``[hold, apply head of lane i ...]``; default = hold.
-      * loop idle, no timer/timed event ahead: the head MUST be applied (``idle-lane`` chooses the lane if several).
+      * loop idle, no timer/timed event ahead: the head MUST be applied (``idle-lane`` chooses the lane if several;
+        default = first lane, or with ``idle_rr`` the lane after the one served last).
       * loop idle, a timer or a timed event ahead: ``[apply now, ..., let the time pass]`` (``idle-wait``; at most
         ``max_waits`` times per execution).
     Exclusion of ties (DESIGN 6 rule 2): nothing is applied while ``hold`` is raised (a handler is inside a zero-delay
@@ -120,7 +121,7 @@ class Script:
     """
 
     def __init__(self, world: World, ctx: Ctx, *, place_costed: bool = True, place: bool = True, max_waits: int = 1,
-                 lane_costed: bool = True) -> None:
+                 lane_costed: bool = True, idle_rr: bool = False) -> None:
         self.world = world
         self.ctx = ctx
         self.place = place
@@ -128,6 +129,8 @@ class Script:
         self.lane_costed = lane_costed
         self.max_waits = max_waits
         self.waits = 0
+        self.idle_rr = idle_rr  # when the loop idles, the default lane is the one after the lane served last (round robin)
+        self.last_lane = -1
         self.lanes: list[collections.deque[Ev]] = []
         self.armed: list[bool] = []
         self.last_t: list[float] = []
@@ -145,6 +148,8 @@ class Script:
         self.lanes.append(collections.deque(events))
         self.armed.append(False)
         self.last_t.append(self.world.clock)
+        if self.active:
+            self._arm(len(self.lanes) - 1)
         return len(self.lanes) - 1
 
     def start(self, loop: Any) -> None:
@@ -178,6 +183,7 @@ class Script:
         self.seq += 1
         self.applied.append((ev.label, self.world.clock, self.world.selects))
         self.last_t[i] = self.world.clock
+        self.last_lane = i
         ev.apply()
         self._arm(i)
 
@@ -193,6 +199,9 @@ class Script:
             busy = timeout == 0 or world.runnable() or bool(world._ready(sel))
             if not cands:
                 break
+            if self.idle_rr and len(cands) > 1:
+                nl = len(self.lanes)
+                cands.sort(key=lambda i: (i - self.last_lane - 1) % nl)
             if self.hold or self._timer_close():
                 return  # tie exclusion: let the zero-delay cancellation / the imminent timer happen first
             if busy:
